@@ -487,6 +487,29 @@ fn to_source_span(src: &NamedSource<String>, location: &Location) -> Option<Sour
     }
     byte_len = byte_len.min(src_len.saturating_sub(byte_off));
 
+    // miette's graphical handler pads with run-time format widths, which panic above `u16::MAX`:
+    // a label that far to the right on its line (a minified one-line document, say) cannot be
+    // drawn, so the report goes without it. The bound is on what miette may count as columns:
+    // four per tab, two per non-ASCII character.
+    let text = src.inner();
+    if text.is_char_boundary(byte_off) {
+        let line_start = text[..byte_off].rfind('\n').map(|i| i + 1).unwrap_or(0);
+        let end = (byte_off + byte_len).min(text.len());
+        let columns: usize = text
+            .get(line_start..end)
+            .unwrap_or("")
+            .chars()
+            .map(|c| match c {
+                '\t' => 4,
+                c if c.is_ascii() => 1,
+                _ => 2,
+            })
+            .sum();
+        if columns > 60_000 {
+            return None;
+        }
+    }
+
     Some(SourceSpan::new(byte_off.into(), byte_len))
 }
 
